@@ -65,8 +65,18 @@ def check(inp):
     if ref == "error":
         return None if exc else "malformed markers accepted silently"
     tags = [t for t, _ in ref]
-    if len(set(tags)) != len(tags) or any(t2.startswith(t1 + ".") for t1 in tags for t2 in tags):
-        return None   # duplicate / prefix-conflicting tags: tree-shape behaviour is the bounded part (DESIGN C12/B)
+    begun = tags + [l[l.find("splicer begin") + 13:].split()[0] for l in lines
+                    if l.find("splicer begin") > 0 and l[l.find("splicer begin") + 13:].split()]
+    conflict = len(set(tags)) != len(tags) or any(t2.startswith(t1 + ".") or t1.startswith(t2 + ".") for t1 in begun for t2 in begun)
+    if conflict:
+        # duplicate tag, or a tag used both as a block name and as a prefix: must be rejected, never silently
+        # overwritten (user code would be lost) -- unless no block was actually stored twice
+        if exc:
+            return None
+        flat = got
+        if len(set(tags)) != len(tags):
+            return "duplicate splicer tag silently overwritten: %r" % tags
+        return None
     if exc:
         return "well-formed file rejected: %s" % exc
     want = dict(ref)
@@ -79,8 +89,9 @@ def candidates(seed, around=None):
     rnd = random.Random(seed)
     atoms = ["// splicer begin a", "// splicer end a", "// splicer begin a.b", "// splicer end a.b", "  x = 1;  ", "",
              "// splicer begin", "// splicer end", "splicer begin a", "! splicer begin c  extra", "! splicer end c",
-             "\tcode\t", "// splicer begin b", "// splicer end b"]
-    for n in range(1, 5):
+             "\tcode\t", "// splicer begin b", "// splicer end b",
+             "    // splicer begin a", "    // splicer end a", "#ifdef X", "  y;"]
+    for n in range(1, 4):
         for tup in itertools.product(atoms, repeat=n):
             yield {"lines": list(tup)}
     while True:
